@@ -121,6 +121,15 @@ def only_logical_nesting(a, b):
     return ('LogicalAnd(<' in a or 'LogicalOr(<' in a) and flat(a) == flat(b)
 
 
+def only_quote_doubling(a, b):
+    """Key naming only: the two node images differ just in doubled quote characters inside StringLiteral values."""
+    def flat(x):
+        while "''" in x or '""' in x:
+            x = x.replace("''", "'").replace('""', '"')
+        return x
+    return 'StringLiteral[' in a and a != b and flat(a) == flat(b)
+
+
 def run(ctx):
     quick = ctx.quick
     if not ctx.replay:
@@ -246,6 +255,8 @@ def run(ctx):
                     detail = f':{ea}->{eb}'
                     if only_logical_nesting(a, b):
                         detail = ':logical-operands-regrouped'
+                    elif only_quote_doubling(a, b):
+                        detail = ':string-literal-quote-doubling'
                 ctx.violation(f'ir-identical:{ka}->{kb}{detail}',
                               f'{origin}: the IR read back from the generated text differs from the IR it was written from at node '
                               f'{pos}:\n  written from: {a[:700]}\n  read back:    {b[:700]}', {'origin': origin, 'text': text})
